@@ -472,6 +472,12 @@ func (r *Reader) seekIndexed(want record) (*tableIter, error) {
 			return nil, err
 		}
 
+		if rec.Offset >= idxIter.blockOff {
+			// Index blocks are written after the blocks they
+			// index. An entry leading to its own or a later
+			// block would make this descent loop forever.
+			return nil, fmtError
+		}
 		tabIter, err := r.tabIterAt(rec.Offset, blockTypeAny)
 		if err != nil {
 			return nil, err
